@@ -101,6 +101,13 @@ op(keysort, _, N, R) :- numlist(1, N, L), reverse(L, Rv), pairs(Rv, Ps), keysort
 op(sort_terms, S, N, R) :- build(S, N, T), next(S, N, N1), build(S, N1, T1), sort([T1, T, T1], L), ( L = [A, B], A == T, B == T1 -> R = same ; R = different ).
 op(nodes, S, N, K) :- build(S, N, T), nodes(T, K).
 op(atom_length, S, N, L) :- build(S, N, T), atom_chars(A, T), atom_length(A, L).
+op(occurs_check, S, N, R) :- build(S, N, T), copy_term(T, C), ( unify_with_occurs_check(T, C) -> R = same ; R = failed ).
+op(subsumes, S, N, R) :- build(S, N, T), copy_term(T, C), ( subsumes_term(T, C) -> R = same ; R = failed ).
+op(acyclic, S, N, R) :- build(S, N, T), ( acyclic_term(T) -> R = true ; R = false ).
+op(setof, S, N, R) :- build(S, N, T), next(S, N, N1), build(S, N1, T1), setof(X, member(X, [T1, T, T1]), L), ( L = [A, B], A == T, B == T1 -> R = same ; R = different ).
+op(univ, S, N, R) :- build(S, N, T), ( atomic(T) -> R = same ; T =.. [F|As], T1 =.. [F|As], same(T, T1, R) ).
+op(write_canonical, S, N, R) :- build(S, N, T), write_term_to_chars(T, [quoted(true), ignore_ops(true)], Cs), length(Cs, L), ( L > N -> R = same ; R = short(L) ).
+op(consulted, S, N, R) :- build(S, N, T), ( consulted_fact(X) -> same(X, T, R) ; R = missing ).
 pairs([], []).
 pairs([K|Ks], [K-v|Ps]) :- pairs(Ks, Ps).
 """
@@ -109,8 +116,20 @@ SHAPES = {"long_list": "LongList", "right_nest": "RightNest", "left_nest": "Left
 # operation -> model operation (the closed form the answer is compared with)
 OPS = {"build": "OSame", "read": "OSame", "write": "OWrite", "writeq_read": "OSame", "copy": "OSame", "compare": "OCompare", "equal": "OSame",
        "unify": "OSame", "unify_fresh": "OSame", "assert": "OSame", "findall": "OSame", "term_variables": "OTermVariables", "ground": "OGround",
-       "length": "OLength", "sort": "OSort", "keysort": "OSort", "sort_terms": "OSame", "nodes": "ONodes", "atom_length": "OLength"}
-ONLY = {"length": {"long_list", "deep_list", "long_string"}, "sort": {"long_list"}, "keysort": {"long_list"}, "atom_length": {"long_string"}}
+       "length": "OLength", "sort": "OSort", "keysort": "OSort", "sort_terms": "OSame", "nodes": "ONodes", "atom_length": "OLength", "occurs_check": "OSame", "subsumes": "OSame", "acyclic": "OGround",
+       "setof": "OSame", "univ": "OSame", "write_canonical": "OSame", "consulted": "OSame"}
+ONLY = {"length": {"long_list", "deep_list", "long_string"}, "sort": {"long_list"}, "keysort": {"long_list"}, "atom_length": {"long_string"},
+        "consulted": {"long_list", "right_nest", "left_nest", "deep_list", "long_string"}}
+
+
+def clause_text(shape, n):
+    """the text of the fact consulted_fact(<term>). (consulting goes through the harness' consult channel, not through a query)"""
+    t = {"right_nest": lambda: "f(" * n + "a" + ")" * n,
+         "left_nest": lambda: "a" + "+b" * n,
+         "deep_list": lambda: "[" * (n + 1) + "]" * (n + 1),
+         "long_list": lambda: "[" + ",".join(str(i) for i in range(1, n + 1)) + "]",
+         "long_string": lambda: '"' + "x" * n + '"'}[shape]()
+    return "consulted_fact(%s).\n" % t
 
 
 def ops_for(shape):
@@ -147,6 +166,11 @@ def run(ctx):
     for shape in SHAPES:
         for n in sizes:
             ops = ops_for(shape)
+            if "consulted" in ops:
+                ops = [o for o in ops if o != "consulted"]
+                jid = "%s/%d/consulted" % (shape, n)
+                jobs.append({"id": jid, "consult": SUPPORT + clause_text(shape, n), "queries": [query("consulted", shape, n)], "fresh": True, "timeout_ms": tmo(n)})
+                meta[jid] = (shape, n, ["consulted"])
             if n >= top:
                 for op in ops:
                     jid = "%s/%d/%s" % (shape, n, op)
@@ -168,7 +192,7 @@ def run(ctx):
         if len(ops) > 1 and (r is None or "results" not in r or not isinstance(r["results"], list)):
             for op in ops:
                 jid = "%s/%d/%s" % (shape, n, op)
-                redo.append({"id": jid, "consult": SUPPORT, "queries": [query(op, shape, n)], "fresh": True, "timeout_ms": tmo(n)})
+                redo.append({"id": jid, "consult": SUPPORT + (clause_text(shape, n) if op == "consulted" else ""), "queries": [query(op, shape, n)], "fresh": True, "timeout_ms": tmo(n)})
                 meta[jid] = (shape, n, [op])
             del meta[j["id"]]
     if redo:
@@ -216,7 +240,7 @@ def run(ctx):
             for frac in (0.75, 0.5, 0.35, 0.25):
                 m = int(n * frac)
                 jid = "p/%s/%d/%s" % (shape, m, op)
-                probe.append({"id": jid, "consult": SUPPORT, "queries": [query(op, shape, m)], "fresh": True, "timeout_ms": tmo(m)})
+                probe.append({"id": jid, "consult": SUPPORT + (clause_text(shape, m) if op == "consulted" else ""), "queries": [query(op, shape, m)], "fresh": True, "timeout_ms": tmo(m)})
                 pmeta[jid] = (shape, n, op, m)
         pres = core.vrun_query(ctx.prop, probe, tag="q3", timeout=3600) if probe else {}
         seen = set()
@@ -234,7 +258,7 @@ def run(ctx):
                              "what": "the process %s during %s on a %s of size %d (smallest size seen to do so: %d%s)" % (
                                  "hung" if kind == "hang" else "died (exit status %s)" % (r or {}).get("crash"), op, shape, n, sm,
                                  ", size %d still answers" % ok if ok else ""),
-                             "input": "fresh machine; consult the support program of checks/C34.py; ?- %s" % query(op, shape, n),
+                             "input": "fresh machine; consult the support program of checks/C34.py%s; ?- %s" % (" followed by the fact consulted_fact(<the %s of size %d as text>)" % (shape, n) if op == "consulted" else "", query(op, shape, n)),
                              "impl": ((r or {}).get("stderr") or json.dumps(r))[-300:].strip(), "spec": "an answer or error(resource_error(_),_); the process survives",
                              "property_fails": True})
 
